@@ -48,6 +48,31 @@ Theorem C06_unordered_independent : forall (n : nat) (o o' : copts) (vc vc' : Z 
 Proof. exact unordered_independent. Qed.
 Print Assumptions C06_unordered_independent.
 
+(** the same independence for every permutation-invariant aggregation obeying the composition law
+    agg (map agg Gs) = agg (concat Gs) on non-empty groups (instances: max and min) *)
+Theorem C06_unordered_independent_any_agg : forall (V : Type) (agg : list V -> V),
+  (forall vs vs', Permutation vs vs' -> agg vs = agg vs') ->
+  (forall Gs : list (list V), Forall (fun G => G <> []) Gs -> agg (map agg Gs) = agg (concat Gs)) ->
+  forall (n : nat) (o o' : copts) (vc vc' : V -> bool)
+    (chunks chunks' : list (list (key * V))) (buf buf' : Z) (edges edges' : option (list nat)) (m m' : mcool V),
+  (1 <= n)%nat -> 0 <= buf -> 0 <= buf' ->
+  Permutation (concat chunks) (concat chunks') ->
+  Forall (fun ch => (o_sort o = true \/ RowSorted ch) /\ Forall (fun p => 0 <= rowof p < Z.of_nat n) ch) chunks ->
+  Forall (fun ch => (o_sort o' = true \/ RowSorted ch) /\ Forall (fun p => 0 <= rowof p < Z.of_nat n) ch) chunks' ->
+  match edges with Some e => Admissible (length chunks) e | None => True end ->
+  match edges' with Some e => Admissible (length chunks') e | None => True end ->
+  unordered_g n o vc agg chunks buf edges = Ok m ->
+  unordered_g n o' vc' agg chunks' buf' edges' = Ok m' -> m = m'.
+Proof. intros V agg H1 H2. exact (unordered_independent_gen agg H1 H2). Qed.
+Print Assumptions C06_unordered_independent_any_agg.
+Theorem C06_max_min_obey_the_law :
+  (forall vs vs', Permutation vs vs' -> lmax vs = lmax vs') /\
+  (forall Gs : list (list Z), Forall (fun G => G <> []) Gs -> lmax (map lmax Gs) = lmax (concat Gs)) /\
+  (forall vs vs', Permutation vs vs' -> lmin vs = lmin vs') /\
+  (forall Gs : list (list Z), Forall (fun G => G <> []) Gs -> lmin (map lmin Gs) = lmin (concat Gs)).
+Proof. repeat split; [exact max_perm|exact max_compose|exact min_perm|exact min_compose]. Qed.
+Print Assumptions C06_max_min_obey_the_law.
+
 (** no spurious failure (any value type / aggregation; dtype check switched off): at least one chunk, each
     acceptable to the validator under the options in force and sorted by bin1_id (or ensure_sorted), any
     mergebuf >= 0, single pass or any admissible edge list => the ingestion returns a result.  Covers the
